@@ -1,0 +1,131 @@
+//go:build verif
+
+package priorityqueue
+
+// Contracts for ds/priorityqueue (property C12: pops in priority order with idempotent removal handles), read by the
+// verification machinery in /verif. Comment-only file.
+//
+// The order itself is container/heap's (not under contract: every call into it is an unknown call, after which the
+// representation invariant below is ASSUMED to hold again - generalheap's half of that, Swap / Push / Pop keeping
+// h[i].index == i and popped => -1, is proved in the generalheap contracts). What is proved is the wrapper: every access
+// to the heap happens under the queue's mutex, Peek reports the head, Pop / PopUntil / PopAll only pop from a non-empty
+// heap and hand out the values of the elements they popped, PopUntil pops exactly while the head's priority is not above
+// the bound, PopAll leaves the queue empty, and a removal handle removes its own element by a valid index and does
+// nothing once that element is gone (idempotent).
+
+/*@
+global pqof (Array Int Int)     -- heap element -> the queue it was pushed to (ghost)
+
+type PriorityQueue
+  monitor mutex level 5 guards heap
+    invariant forall i Int :: 0 <= i && i < len(self.heap) ==> self.heap[i] != nil && self.heap[i].index == i && sel(pqof, self.heap[i]) == self
+    invariant forall r Int :: sel(pqof, r) == self && as(*generalheap.HeapElement[Priority, Element], r).index != 0 - 1 ==> 0 <= as(*generalheap.HeapElement[Priority, Element], r).index && as(*generalheap.HeapElement[Priority, Element], r).index < len(self.heap) && self.heap[as(*generalheap.HeapElement[Priority, Element], r).index] == r
+
+func PriorityQueue.Peek
+  instantiate Element: string
+  opt sequential
+  requires p != nil && unlocked(p.mutex)
+  ensures unlocked(p.mutex)
+  ensures r1 <==> len(p.heap) != 0
+  ensures r1 ==> r0 == p.heap[0].Value
+
+func PriorityQueue.Size
+  instantiate Element: string
+  opt sequential
+  requires p != nil && unlocked(p.mutex)
+  ensures unlocked(p.mutex) && r0 == len(p.heap)
+
+func PriorityQueue.IsEmpty
+  instantiate Element: string
+  opt sequential
+  requires p != nil && unlocked(p.mutex)
+  ensures unlocked(p.mutex) && (r0 <==> len(p.heap) == 0)
+-- Pop: only from a non-empty heap; what container/heap hands back (assumed: an element of this queue's heap, marked
+-- removed) is what the caller gets
+func PriorityQueue.Pop
+  instantiate Element: string
+  opt sequential
+  requires p != nil && unlocked(p.mutex)
+  modifies everything
+  ghost local got Int
+  ghost local n Int
+  ghost at entry: got = 0
+  ghost after acquire: n = len(p.heap)
+  ghost before call Pop: assert held(p.mutex) && len(p.heap) > 0
+  ghost after call Pop: assume result != nil && typeof(result) == typeid(*generalheap.HeapElement[Priority, Element]) && unbox(*generalheap.HeapElement[Priority, Element], result) != nil && len(p.heap) == n - 1 && (forall i Int :: 0 <= i && i < len(p.heap) ==> p.heap[i] != nil && p.heap[i].index == i && sel(pqof, p.heap[i]) == p) && (forall r Int :: sel(pqof, r) == p && as(*generalheap.HeapElement[Priority, Element], r).index != 0 - 1 ==> 0 <= as(*generalheap.HeapElement[Priority, Element], r).index && as(*generalheap.HeapElement[Priority, Element], r).index < len(p.heap) && p.heap[as(*generalheap.HeapElement[Priority, Element], r).index] == r)
+  ghost after call Pop: got = unbox(*generalheap.HeapElement[Priority, Element], result)
+  ghost at return: assert n == 0 ==> !r1
+  ghost at return: assert n > 0 ==> r1
+  ghost at return: assert r1 ==> got != nil && r0 == as(*generalheap.HeapElement[Priority, Element], got).Value
+  ensures unlocked(p.mutex)
+
+-- PopAll: pops until the heap is empty
+func PriorityQueue.PopAll
+  instantiate Element: string
+  opt sequential
+  requires p != nil && unlocked(p.mutex)
+  modifies everything
+  ghost before call Pop: assert held(p.mutex) && len(p.heap) > 0
+  ghost after call Pop: assume result != nil && typeof(result) == typeid(*generalheap.HeapElement[Priority, Element]) && unbox(*generalheap.HeapElement[Priority, Element], result) != nil && (forall i Int :: 0 <= i && i < len(p.heap) ==> p.heap[i] != nil && p.heap[i].index == i && sel(pqof, p.heap[i]) == p) && (forall r Int :: sel(pqof, r) == p && as(*generalheap.HeapElement[Priority, Element], r).index != 0 - 1 ==> 0 <= as(*generalheap.HeapElement[Priority, Element], r).index && as(*generalheap.HeapElement[Priority, Element], r).index < len(p.heap) && p.heap[as(*generalheap.HeapElement[Priority, Element], r).index] == r)
+  loop 1 invariant held(p.mutex) && (forall i Int :: 0 <= i && i < len(p.heap) ==> p.heap[i] != nil && p.heap[i].index == i && sel(pqof, p.heap[i]) == p) && (forall r Int :: sel(pqof, r) == p && as(*generalheap.HeapElement[Priority, Element], r).index != 0 - 1 ==> 0 <= as(*generalheap.HeapElement[Priority, Element], r).index && as(*generalheap.HeapElement[Priority, Element], r).index < len(p.heap) && p.heap[as(*generalheap.HeapElement[Priority, Element], r).index] == r)
+  ghost before unlock: assert len(p.heap) == 0
+  ensures unlocked(p.mutex)
+
+-- PopUntil: pops exactly while the head's priority is not above the bound (CompareTo <= 0)
+global lastcmp Int        -- result of the last comparison of the head with the bound (ghost)
+-- (the comparison of the priority type: a method of the type parameter - assumed to be a pure function)
+assume-func github.com/iotaledger/hive.go/ds/generalheap.Comparable.CompareTo(recv, other) (r)
+  ensures true
+-- container/heap on this package's heap type: code outside the claim (an unknown call; see the head of this file)
+assume-func-here container/heap.Push(h, x)
+  modifies everything
+assume-func-here container/heap.Pop(h) (r)
+  modifies everything
+assume-func-here container/heap.Remove(h, i) (r)
+  modifies everything
+func PriorityQueue.PopUntil
+  instantiate Element: string
+  opt sequential
+  requires p != nil && unlocked(p.mutex)
+  modifies everything
+  ghost local cmpd Bool       -- the head has been compared with the bound since the heap last changed (ghost)
+  ghost after acquire: cmpd = false
+  ghost before call Comparable.CompareTo: assert held(p.mutex) && len(p.heap) > 0 && arg0 == p.heap[0].Key && arg1 == priority
+  ghost after call Comparable.CompareTo: lastcmp = result
+  ghost after call Comparable.CompareTo: cmpd = true
+  ghost before call Pop: assert held(p.mutex) && len(p.heap) > 0 && cmpd && lastcmp <= 0
+  ghost after call Pop: assume result != nil && typeof(result) == typeid(*generalheap.HeapElement[Priority, Element]) && unbox(*generalheap.HeapElement[Priority, Element], result) != nil && (forall i Int :: 0 <= i && i < len(p.heap) ==> p.heap[i] != nil && p.heap[i].index == i && sel(pqof, p.heap[i]) == p) && (forall r Int :: sel(pqof, r) == p && as(*generalheap.HeapElement[Priority, Element], r).index != 0 - 1 ==> 0 <= as(*generalheap.HeapElement[Priority, Element], r).index && as(*generalheap.HeapElement[Priority, Element], r).index < len(p.heap) && p.heap[as(*generalheap.HeapElement[Priority, Element], r).index] == r)
+  ghost after call Pop: cmpd = false
+  loop 1 invariant held(p.mutex) && (forall i Int :: 0 <= i && i < len(p.heap) ==> p.heap[i] != nil && p.heap[i].index == i && sel(pqof, p.heap[i]) == p) && (forall r Int :: sel(pqof, r) == p && as(*generalheap.HeapElement[Priority, Element], r).index != 0 - 1 ==> 0 <= as(*generalheap.HeapElement[Priority, Element], r).index && as(*generalheap.HeapElement[Priority, Element], r).index < len(p.heap) && p.heap[as(*generalheap.HeapElement[Priority, Element], r).index] == r)
+  ghost before unlock: assert len(p.heap) == 0 || (cmpd && lastcmp > 0)
+  ensures unlocked(p.mutex)
+
+-- Push: the new element goes in through container/heap (assumed: afterwards it is in the heap of this queue)
+func PriorityQueue.Push
+  instantiate Element: string
+  opt sequential
+  requires p != nil && unlocked(p.mutex)
+  modifies everything
+  ghost before call Push: assert held(p.mutex) && typeof(arg1) == typeid(*generalheap.HeapElement[Priority, Element]) && unbox(*generalheap.HeapElement[Priority, Element], arg1) != nil && unbox(*generalheap.HeapElement[Priority, Element], arg1).Value == element && unbox(*generalheap.HeapElement[Priority, Element], arg1).Key == priority
+  ghost after call Push: assume (forall i Int :: 0 <= i && i < len(p.heap) ==> p.heap[i] != nil && p.heap[i].index == i && sel(pqof, p.heap[i]) == p) && (forall r Int :: sel(pqof, r) == p && as(*generalheap.HeapElement[Priority, Element], r).index != 0 - 1 ==> 0 <= as(*generalheap.HeapElement[Priority, Element], r).index && as(*generalheap.HeapElement[Priority, Element], r).index < len(p.heap) && p.heap[as(*generalheap.HeapElement[Priority, Element], r).index] == r)
+  ensures unlocked(p.mutex) && r0 != nil
+
+-- the removal handle: removes its own element - by the index the element knows, which is inside the heap and is the
+-- element's slot - and does nothing when the element is already gone (index -1): calling it again is a no-op
+func PriorityQueue.Push$1
+  instantiate Element: string
+  opt sequential
+  requires p != nil && *p != nil && heapElement != nil && *heapElement != nil && unlocked((*p).mutex) && sel(pqof, *heapElement) == *p
+  modifies everything
+  ghost local removed Bool
+  ghost local q Int                 -- the queue and the element this handle was made for (ghost)
+  ghost local he Int
+  ghost at entry: q = *p
+  ghost at entry: he = *heapElement
+  ghost after acquire: removed = false
+  ghost before call Remove: assert held((*p).mutex) && (*heapElement).index != 0 - 1 && 0 <= arg1 && arg1 < len((*p).heap) && (*p).heap[arg1] == *heapElement
+  ghost after call Remove: assume *p == q && *heapElement == he && (forall i Int :: 0 <= i && i < len((*p).heap) ==> (*p).heap[i] != nil && (*p).heap[i].index == i && sel(pqof, (*p).heap[i]) == (*p)) && (forall r Int :: sel(pqof, r) == (*p) && as(*generalheap.HeapElement[Priority, Element], r).index != 0 - 1 ==> 0 <= as(*generalheap.HeapElement[Priority, Element], r).index && as(*generalheap.HeapElement[Priority, Element], r).index < len((*p).heap) && (*p).heap[as(*generalheap.HeapElement[Priority, Element], r).index] == r)
+  ghost after call Remove: removed = true
+  ghost before unlock: assert !removed ==> (*heapElement).index == 0 - 1
+  ensures unlocked((*p).mutex)
+@*/
